@@ -35,6 +35,24 @@ func run(cfg *hx.RunCfg) (*hx.Result, error) {
 		btx.Record(res, "C17", sr)
 		return res, nil
 	}
+	if f := os.Getenv("C17_SEQS"); f != "" { // developer aid: replay a JSON list of sequences
+		raw, err := os.ReadFile(f)
+		if err != nil {
+			return nil, err
+		}
+		var seqs []btx.Seq
+		if err := json.Unmarshal(raw, &seqs); err != nil {
+			return nil, err
+		}
+		for _, q := range seqs {
+			sr, err := btx.Replay(q)
+			if err != nil {
+				return nil, err
+			}
+			btx.Record(res, "C17", sr)
+		}
+		return res, nil
+	}
 	if os.Getenv("C17_HUNT") != "" { // developer aid: hunt, minimise and trace deviations
 		r := hx.NewRng(cfg.Seed)
 		seen := map[string]int{}
@@ -59,7 +77,7 @@ func run(cfg *hx.RunCfg) (*hx.Result, error) {
 	}
 	n := cfg.N
 	if n == 0 {
-		n = 260
+		n = 150
 		if cfg.Tier == "thorough" {
 			n = 6000
 		}
